@@ -175,6 +175,10 @@ func cmdCheck(args []string) int {
 		timeout = 60
 	}
 	tSolve := time.Now()
+	// optional per-property obligation filter (prop_filters.json): a property may be carried by
+	// specific obligation kinds / clause labels of functions that are fully verified under
+	// other properties
+	applyPropFilter(prop, results)
 	discharge(results, timeout, thorough, 14)
 	solveS := time.Since(tSolve).Seconds()
 
@@ -266,7 +270,7 @@ func cmdCheck(args []string) int {
 			// failed: known finding?
 			matched := false
 			for _, k := range known {
-				if k.Property == prop && (k.Obligation == cls || k.Obligation == o.Name) {
+				if k.Obligation == cls || k.Obligation == o.Name {
 					knownHit = append(knownHit, fmt.Sprintf("KNOWN-FINDING: property=%s %s [%s]", prop, k.What, o.Name))
 					matched = true
 					break
